@@ -81,7 +81,15 @@ def rule_convert(ctx, prop):
             # the switch
             sws = [switch_info(f, bi) for bi in range(len(f.blocks))]
             sws = [s for s in sws if s and s["enum"] == src_ty and s["place"]["l"] == 1]
-            if not rep.anchor(len(sws) == 1, f"single match in {f.path}", cfg):
+            if len(sws) != 1:
+                # not a variant-to-variant match (e.g. a round trip through names / serde): which value a flag maps to cannot
+                # be read off the code, and a name mismatch (clap `LuaJit` vs `LuaJIT`) silently becomes a default
+                via = sorted({callee(t).split("::")[-1] for b, t in f.calls()})[:8]
+                rep.inst(f"{f.key} is a variant-to-variant match", {"calls": via}, cfg, ok=False)
+                rep.violation(f"{f.key} conversion-not-a-match",
+                              f"{f.path} does not convert by matching on the flag's variants (it goes through {via}): the "
+                              f"flag value and the config-file value of the same name can no longer be shown to mean the "
+                              f"same option value (fail closed)", f.loc(), cfg)
                 continue
             si = sws[0]
             alltargets = dict(si["targets"])
@@ -295,6 +303,33 @@ def rule_deny_unknown(ctx, prop):
             if not ok:
                 rep.violation(f"stylua_lib::{st} toml-keys-differ",
                               f"stylua.toml keys {sorted(strs)} differ from {st}'s fields {sorted(want)}", g.loc(), cfg)
+        # the option enums: an unknown value is an error, and the accepted spellings are exactly the variant names
+        cfg_adt = prog.adt("Config", "stylua_lib")
+        cfg_tys = " ".join(x.get("ty", "") for x in cfg_adt["variants"][0]["fields"]) if cfg_adt else ""
+        nen = 0
+        for g in prog.fns("stylua_lib"):
+            m = re.search(r"Deserialize<'de> for (\w+)>::deserialize::__FieldVisitor as .*>::visit_str$", g.path)
+            if not m or m.group(1) in ("Config", "SortRequiresConfig"):
+                continue
+            en = m.group(1)
+            a = prog.adt(en, "stylua_lib")
+            if a is None or a.get("kind") != "enum" or (cfg_tys and en not in cfg_tys):
+                continue
+            nen += 1
+            unk = [t for b, t in g.calls() if callee(t).endswith("::unknown_variant")]
+            strs = {x["s"] for b, t in g.calls() if callee(t).endswith("::eq") for x in t["args"] if is_const(x) and "s" in x}
+            want = {v["name"] for v in a["variants"]}
+            ok = len(unk) >= 1 and strs == want
+            rep.inst(f"stylua_lib::{en} rejects unknown values; spellings = variant names", {"accepted": sorted(strs)}, cfg, ok=ok)
+            if not unk:
+                rep.violation(f"stylua_lib::{en} unknown-values-accepted",
+                              f"the derived Deserialize of {en} has no unknown_variant error (a catch-all such as "
+                              f"#[serde(other)]): a misspelt or unsupported value in stylua.toml is silently mapped to some "
+                              f"variant instead of being rejected like the same value on the command line", g.loc(), cfg)
+            elif strs != want:
+                rep.violation(f"stylua_lib::{en} toml-values-differ accepted={sorted(strs)}",
+                              f"stylua.toml accepts {sorted(strs)} for {en}, whose variants are {sorted(want)}", g.loc(), cfg)
+        rep.floor("option enums with a derived Deserialize", nen, 5, cfg)
         # read_config_file: the toml error is propagated (not defaulted)
         r = prog.fn("stylua", "config::read_config_file")
         if rep.anchor(r is not None, "config::read_config_file", cfg):
